@@ -17,7 +17,8 @@ def _F(tier):
     return N_IT[tier] * len(ORIGINS) * len(KINDS)
 
 
-TIERS = {t: N_PROG[t] * _F(t) for t in ("quick", "thorough")}
+N_DOUBLE = {"quick": 48, "thorough": 3000}  # fault SEQUENCES: two faults in one run
+TIERS = {t: N_PROG[t] * _F(t) + N_DOUBLE[t] for t in ("quick", "thorough")}
 
 RULE = (
     "fault enumeration: for each of P sampled training programs (equation kind x optimizer x tracked spec x loop driver; "
@@ -27,7 +28,8 @@ RULE = (
     "equation's domain (log of a parameter driven below 0; k varies the step size)} and of EVERY kind {NaN, +Inf}. +Inf makes "
     "a parameter infinite, not NaN, so the NaN may arise one or more iterations later: the reference loop applies the "
     "property's own rule (abort when a NaN appears in the parameters). Non-trivial = the reference saw a NaN parameter "
-    "(the fault fired); distinct = distinct (program, origin, kind, failing iteration)."
+    "(the fault fired); distinct = distinct (program, origin, kind, failing iteration). In addition 48 (quick) / 3000 (thorough) "
+    "runs inject a SEQUENCE of two faults (any two of the four optimizer-side origins, values NaN/+Inf/-Inf, k1 <= k2) into a fresh random program."
 )
 STATE_MEASURE = "(equation kind, optimizer kind, driver, fault origin, fault kind, failing position in {none, first, interior, last})"
 REAL = ["jinns.solve (NaN guard in _gradient_step, loop condition in break_fun, _check_nan_in_pytree, history stores)",
@@ -58,6 +60,25 @@ def generate(rng, tier, r):
     from sim import core
     from sim.props import C07
 
+    if r >= N_PROG[tier] * _F(tier):
+        # two-fault sequence: e.g. +Inf in a gradient at k1, NaN in an update at k2 >= k1
+        prog = C07.gen_training_program(rng, 0, tier, max_total=N_IT[tier], allow_segments=False)
+        prog["float"] = "x64"
+        n = N_IT[tier]
+        prog["segments"] = [{"n": n}]
+        prog["verbose"] = False
+        if prog["eq"] == "sysode":
+            prog["dkeys"] = "default"
+        k1 = rng.randrange(n)
+        k2 = rng.randrange(k1, n)
+        fl = []
+        for kk in (k1, k2):
+            o = rng.choice(["update-nn", "update-eq", "grad-nn", "grad-eq"])
+            fl.append({"origin": "update" if o.startswith("update") else "grad", "at": kk,
+                       "leaf": "eq:a" if o.endswith("eq") else f"nn:{rng.randrange(8)}", "value": rng.choice(["nan", "inf", "inf", "-inf"])})
+        prog["faults"] = fl
+        prog["fault"] = {"origin": "sequence", "kind": "+".join(f["value"] for f in fl), "k": k1, "program": r}
+        return prog
     p, k, origin, kind = _decode(r, tier)
     prng = core.run_rng(core.verif_seed(), ID, p, stream="program")
     prog = C07.gen_training_program(prng, 0, tier, max_total=N_IT[tier], allow_segments=False)
@@ -181,6 +202,8 @@ def execute(program, ctx):
         pos = "first" if kf == 0 else ("last" if kf == n - 1 else "interior")
         ctx.count(f"fault.{origin}.{fault.get('kind')}")
         ctx.count("probe.fail_" + pos)
+        if origin == "sequence":
+            ctx.count("probe.fault_sequence_fired")
         if fault.get("kind") == "inf" and origin not in ("loss-data", "loss-domain") and kf != fault.get("k"):
             ctx.count("probe.inf_then_nan_later")
     else:
